@@ -1529,6 +1529,231 @@ fn part_selection(out: &mut Out, r: &mut Rng, a: &Args) {
     }
 }
 
+// ===================================================================== part 3d
+// load_balancer: the SERVFAIL it makes up itself when no upstream is usable
+// (none configured, or all over their burst limit) must carry the request's ID
+// and question.  T2 kind `lbl` against lb_local / lb_run of the model.
+
+#[derive(Debug)]
+struct UpMock;
+#[derive(Debug)]
+struct UpReq(Option<Vec<u8>>);
+impl SendRequest<RequestMessage<Vec<u8>>> for UpMock {
+    fn send_request(&self, r: RequestMessage<Vec<u8>>) -> Box<dyn domain::net::client::request::GetResponse + Send + Sync> {
+        Box::new(UpReq(r.to_vec().ok()))
+    }
+}
+impl domain::net::client::request::GetResponse for UpReq {
+    fn get_response(&mut self) -> Pin<Box<dyn Future<Output = Result<Message<bytes::Bytes>, Error>> + Send + Sync + '_>> {
+        let req = self.0.take();
+        Box::pin(async move {
+            let req = req.ok_or(Error::ConnectionClosed)?;
+            let id = parse_hdr(&req).map(|h| h.id).unwrap_or(0);
+            let q = parse_qs(&req).and_then(|v| v.into_iter().next()).unwrap_or(question(0));
+            // AA marks answers that came from the upstream
+            Ok(Message::from_octets(bytes::Bytes::from(reply(b'G', id, &q, true))).unwrap())
+        })
+    }
+}
+
+fn request_with_id(q: &Q, id: u16, opt: bool) -> RequestMessage<Vec<u8>> {
+    let mut mb = MessageBuilder::new_vec();
+    mb.header_mut().set_rd(true);
+    mb.header_mut().set_id(id);
+    let mut qb = mb.question();
+    qb.push((Name::<Vec<u8>>::from_octets(q.name.clone()).unwrap(), Rtype::from_int(q.qtype))).unwrap();
+    let mut r = RequestMessage::new(qb.into_message()).unwrap();
+    if opt { r.set_udp_payload_size(1232); }
+    r
+}
+
+fn part_lb_local(out: &mut Out, r: &mut Rng, a: &Args) {
+    let n = if a.thorough { 600 } else { 60 } * a.scale;
+    for k in 0..n {
+        let mb: String = if k < 6 { ["x", "n", "0", "1", "2", "x"][k as usize].to_string() } else { match r.below(6) { 0 => "x".into(), 1 => "n".into(), _ => format!("{}", r.below(4)) } };
+        let opt = r.chance(1, 2);
+        let ids: Vec<u16> = (0..r.range(1, 7)).map(|_| match r.below(6) { 0 => 0, 1 => 65535, 2 => 0x1234, _ => r.u16() }).collect();
+        let case = format!("lbl {} {} {}", mb, opt as u8, ids.iter().map(|i| i.to_string()).collect::<Vec<_>>().join(","));
+        out.begin(&case);
+        let q = question(0);
+        let (mb2, ids2, q2) = (mb.clone(), ids.clone(), q.clone());
+        let rt = paused_rt();
+        let res: Vec<Option<Result<Vec<u8>, String>>> = rt.block_on(async move {
+            let (lb, tr) = load_balancer::Connection::<RequestMessage<Vec<u8>>>::new();
+            tokio::spawn(tr.run());
+            if mb2 != "x" {
+                let mut cc = load_balancer::ConnConfig::new();
+                if mb2 != "n" { cc.set_max_burst(Some(mb2.parse().unwrap())); cc.set_burst_interval(Duration::from_secs(3600)); }
+                lb.add("up", &cc, Box::new(UpMock)).await.unwrap();
+            }
+            let mut v = Vec::new();
+            for id in ids2 {
+                let req = request_with_id(&q2, id, opt);
+                let lb2 = lb.clone();
+                let h = tokio::spawn(async move { let mut g = SendRequest::send_request(&lb2, req); g.get_response().await });
+                v.push(match tokio::time::timeout(Duration::from_secs(600), h).await {
+                    Ok(Ok(r)) => Some(r.map(|m| m.as_slice().to_vec()).map_err(|e| err_class(&e))),
+                    Ok(Err(_)) => Some(Err("panic".into())),
+                    Err(_) => None,
+                });
+            }
+            v
+        });
+        let mut toks = Vec::new();
+        for (id, r1) in ids.iter().zip(res.iter()) {
+            match r1 {
+                None => { out.check(false, "never_completes", &case, "load balancer request did not complete"); toks.push("P".to_string()); }
+                Some(Err(e)) => { out.check(e != "panic", "panic_transport", &case, "load balancer request panicked"); toks.push(format!("E:{}", e)); }
+                Some(Ok(m)) => {
+                    let h = parse_hdr(m).unwrap();
+                    let same = parse_qs(m).as_deref() == Some(std::slice::from_ref(&q));
+                    if h.aa {
+                        out.check(answers(m, *id, &q), "wrong_reply_delivered", &case, &format!("upstream answer {} for request id {}", hex(m), id));
+                        toks.push("U".into());
+                    } else {
+                        out.check(h.id == *id, "local_answer_wrong_id", &case, &format!("the locally generated answer has ID {} but the request had ID {}: {}", h.id, id, hex(m)));
+                        out.check(same, "local_answer_wrong_question", &case, &format!("the locally generated answer does not carry the request's question: {}", hex(m)));
+                        toks.push(format!("L:{}:{}:{}:{}:{}:{}:{}", h.id, h.qr as u8, h.rcode, h.qd, h.an, h.ar, if same { "same" } else { "other" }));
+                    }
+                }
+            }
+        }
+        out.case(&case, &toks.join(" "), ids.iter().any(|i| *i != 0), "lb_local");
+    }
+}
+
+// ===================================================================== part 3e
+// multi_stream: one response-timeout budget per request, however many
+// connections come up slowly, die or stay silent.  Paused clock; T2 kind `msr`
+// for the scripts whose outcome does not depend on the random back-off delays.
+
+#[derive(Clone, Debug)]
+enum Fate { Reply(u64), Wrong(u64), Dies(u64), Silent }
+#[derive(Clone, Debug)]
+enum CAtt { Fail(u64), Up(u64, Fate) }
+
+struct MsShared { atts: Vec<CAtt>, star: bool, next: usize, seen: Vec<Vec<u8>>, q: Q }
+#[derive(Clone)]
+struct MsConnect(Arc<Mutex<MsShared>>);
+impl std::fmt::Debug for MsConnect { fn fmt(&self, f: &mut std::fmt::Formatter<'_>) -> std::fmt::Result { f.write_str("MsConnect") } }
+
+impl AsyncConnect for MsConnect {
+    type Connection = tokio::io::DuplexStream;
+    type Fut = Pin<Box<dyn Future<Output = Result<tokio::io::DuplexStream, std::io::Error>> + Send + Sync>>;
+    fn connect(&self) -> Self::Fut {
+        let att = {
+            let mut s = self.0.lock().unwrap();
+            let i = s.next; s.next += 1;
+            if i < s.atts.len() { Some(s.atts[i].clone()) } else if s.star { s.atts.last().cloned() } else { None }
+        };
+        let sh = self.0.clone();
+        Box::pin(async move {
+            match att {
+                None => { std::future::pending::<()>().await; unreachable!() }
+                Some(CAtt::Fail(d)) => { tokio::time::sleep(Duration::from_millis(d)).await; Err(std::io::Error::other("scripted connect error")) }
+                Some(CAtt::Up(d, fate)) => {
+                    tokio::time::sleep(Duration::from_millis(d)).await;
+                    let (c, s) = tokio::io::duplex(1 << 16);
+                    tokio::spawn(async move {
+                        let (mut rd, mut wr) = tokio::io::split(s);
+                        let len = match rd.read_u16().await { Ok(l) => l as usize, Err(_) => return };
+                        let mut buf = vec![0u8; len];
+                        if rd.read_exact(&mut buf).await.is_err() { return; }
+                        let id = parse_hdr(&buf).map(|h| h.id).unwrap_or(0);
+                        let q = { let mut s = sh.lock().unwrap(); s.seen.push(buf.clone()); s.q.clone() };
+                        match fate {
+                            Fate::Reply(e) => { tokio::time::sleep(Duration::from_millis(e)).await; let _ = frame(&mut wr, &reply(b'G', id, &q, true)).await; std::future::pending::<()>().await; }
+                            Fate::Wrong(e) => { tokio::time::sleep(Duration::from_millis(e)).await; let _ = frame(&mut wr, &reply(b'N', id, &q, true)).await; std::future::pending::<()>().await; }
+                            Fate::Dies(e) => { tokio::time::sleep(Duration::from_millis(e)).await; }
+                            Fate::Silent => { std::future::pending::<()>().await; }
+                        }
+                    });
+                    Ok(c)
+                }
+            }
+        })
+    }
+}
+
+fn catt_tok(a: &CAtt) -> String {
+    match a {
+        CAtt::Fail(d) => format!("f{}", d),
+        CAtt::Up(d, Fate::Reply(e)) => format!("k{}:R{}", d, e), CAtt::Up(d, Fate::Wrong(e)) => format!("k{}:W{}", d, e),
+        CAtt::Up(d, Fate::Dies(e)) => format!("k{}:X{}", d, e), CAtt::Up(d, Fate::Silent) => format!("k{}:S", d),
+    }
+}
+
+fn part_ms_request(out: &mut Out, r: &mut Rng, a: &Args) {
+    let n = if a.thorough { 3000 } else { 300 } * a.scale;
+    let mut corpus: Vec<(u64, Vec<CAtt>, bool)> = vec![
+        (30000, vec![CAtt::Up(20000, Fate::Silent)], false),                      // slow accept, then silence
+        (30000, vec![CAtt::Up(0, Fate::Dies(0))], true),                          // every connection dies after reading the request
+        (3000, vec![CAtt::Fail(10)], true),
+        (3000, vec![CAtt::Up(100, Fate::Reply(2900))], false),
+        (3000, vec![CAtt::Up(100, Fate::Reply(2901))], false),
+        (3000, vec![CAtt::Up(3000, Fate::Reply(0))], false),
+        (3000, vec![CAtt::Up(1000, Fate::Dies(500)), CAtt::Up(1000, Fate::Silent)], false),
+        (3000, vec![CAtt::Up(10, Fate::Wrong(20))], false),
+    ];
+    for k in 0..n + corpus.len() as u64 {
+        let (t, atts, star) = if (k as usize) < corpus.len() { std::mem::take(&mut corpus[k as usize]) } else {
+            let t = *r.pick(&[300u64, 1000, 3000]);
+            let dur = |r: &mut Rng| match r.below(8) { 0 => 0, 1 => t, 2 => t - 1, 3 => t + 5, 4 => t / 2, _ => r.below(t) };
+            let na = r.range(1, 4);
+            let atts: Vec<CAtt> = (0..na).map(|i| {
+                if r.chance(1, 4) { CAtt::Fail(dur(r) / 3) } else {
+                    let d = dur(r) / if i == 0 { 1 } else { 3 };
+                    let f = match r.below(8) { 0 | 1 => Fate::Reply(dur(r)), 2 => Fate::Wrong(dur(r)), 3 | 4 | 5 => Fate::Dies(dur(r) / 3), _ => Fate::Silent };
+                    CAtt::Up(d, f)
+                } }).collect();
+            (t, atts, r.chance(1, 2))
+        };
+        // the outcome is independent of the random back-off delays unless a later attempt can still succeed
+        let deterministic = !atts.iter().skip(1).any(|x| matches!(x, CAtt::Up(_, Fate::Reply(_)) | CAtt::Up(_, Fate::Wrong(_))))
+            && !(star && atts.len() == 1 && false);
+        let script = format!("{}{}", atts.iter().map(catt_tok).collect::<Vec<_>>().join("|"), if star { "*" } else { "" });
+        let case = format!("msr {} {}", t, script);
+        out.begin(&case);
+        let q = question(4);
+        let sh = Arc::new(Mutex::new(MsShared { atts: atts.clone(), star, next: 0, seen: vec![], q: q.clone() }));
+        let (sh2, q2) = (sh.clone(), q.clone());
+        let rt = paused_rt();
+        let (res, elapsed) = rt.block_on(async move {
+            let mut scfg = stream::Config::new();
+            scfg.set_idle_timeout(Duration::ZERO);
+            let mut cfg = multi_stream::Config::from(scfg);
+            cfg.set_response_timeout(Duration::from_millis(t));
+            let (conn, tr) = multi_stream::Connection::<RequestMessage<Vec<u8>>>::with_config(MsConnect(sh2), cfg);
+            tokio::spawn(tr.run());
+            let start = tokio::time::Instant::now();
+            let h = tokio::spawn(async move { let mut g = SendRequest::send_request(&conn, request_for(&q2)); let r = g.get_response().await; (r, tokio::time::Instant::now()) });
+            match tokio::time::timeout(Duration::from_millis(t * 50 + 100_000), h).await {
+                Ok(Ok((r, at))) => (Some(r.map(|m| m.as_slice().to_vec()).map_err(|e| err_class(&e))), at.duration_since(start).as_millis() as u64),
+                Ok(Err(_)) => (Some(Err("panic".to_string())), 0),
+                Err(_) => (None, t * 50 + 100_000),
+            }
+        });
+        let obs = match &res {
+            None => "Never".to_string(),
+            Some(Ok(_)) => format!("Ok {}", elapsed),
+            Some(Err(e)) if e == "wrong_reply" => format!("Err wrong {}", elapsed),
+            Some(Err(e)) if e == "read_timeout" => format!("Err timeout {}", elapsed),
+            Some(Err(e)) => format!("Err {} {}", e, elapsed),
+        };
+        if deterministic { out.case(&case, &obs, true, "ms_request"); } else { out.oracle_case(&case, true, "ms_request_random_backoff"); }
+        match &res {
+            None => out.check(false, "never_completes", &case, "multi_stream request did not complete"),
+            Some(Err(e)) => out.check(e != "panic", "panic_transport", &case, "multi_stream request panicked"),
+            Some(Ok(m)) => {
+                let id = sh.lock().unwrap().seen.last().and_then(|d| parse_hdr(d)).map(|h| h.id);
+                out.check(id.map_or(false, |id| answers(m, id, &q)), "wrong_reply_delivered", &case, &format!("delivered {} for stream request id {:?}", hex(m), id));
+            }
+        }
+        out.check(elapsed <= t, "response_budget_exceeded", &case,
+            &format!("the request ended after {} ms although multi_stream's response timeout is {} ms (the budget is per request, not per connection)", elapsed, t));
+    }
+}
+
 fn main() {
     let a = args();
     let mut out = Out::new(&a, "C15", 90);
@@ -1543,5 +1768,7 @@ fn main() {
     if want("demux") { part_demux(&mut out, &mut r, &a); }
     if want("dgram_stream") { part_dgram_stream(&mut out, &mut r, &a); }
     if want("selection") { part_selection(&mut out, &mut r, &a); }
+    if want("lb_local") { part_lb_local(&mut out, &mut r, &a); }
+    if want("ms_request") { part_ms_request(&mut out, &mut r, &a); }
     out.finish(&[("stream_ok_deliveries", format!("{}", okd)), ("stream_error_completions", format!("{}", errd))]);
 }
